@@ -2300,23 +2300,16 @@ class Mesher:
 
         return connect, elementTags
 
-    def __Get_partitioned_groupElems(
+    def __Get_rank_elements(
         self,
         gmshId: int,
-        connect: np.ndarray,
         gmshElements: np.ndarray,
-        coordinates: np.ndarray,
-        dict_rank_nodes: dict[int, set[int]],
-    ) -> list["_GroupElem"]:
-        """Splits the elements of `gmshId` into one `_GroupElem` per partition. The partition count comes from `dict_rank_nodes`, which is not tied to MPI_SIZE — see `_Mesh_Get_Meshes`."""
-
-        Nproc = len(dict_rank_nodes)
+        Nproc: int,
+    ) -> dict[int, set[int]]:
+        """Rows of the pre-partition `connect` of `gmshId` owned by each rank."""
 
         # get type's dim
         dim = gmsh.model.mesh.getElementProperties(gmshId)[1]
-
-        # get elements data
-        Ne = connect.shape[0]
 
         # gmshElements is the pre-partition snapshot of element tags aligned with
         # connect rows; map_elements gives the connect row for each tag.
@@ -2341,27 +2334,39 @@ class Mesher:
             for rank in ranks:
                 dict_rank_elements[rank].update(idx)
 
-        list_rank_groupElem: list["_GroupElem"] = []
+        return dict_rank_elements
 
-        Nn: int = 0
+    def __Get_partitioned_groupElems(
+        self,
+        gmshId: int,
+        connect: np.ndarray,
+        coordinates: np.ndarray,
+        dict_rank_nodes: dict[int, set[int]],
+        dict_rank_elements: dict[int, set[int]],
+    ) -> list["_GroupElem"]:
+        """Splits the elements of `gmshId` into one `_GroupElem` per partition. The partition count comes from `dict_rank_nodes`, which is not tied to MPI_SIZE — see `_Mesh_Get_Meshes`.
+
+        `dict_rank_nodes` is the node ownership over **all** element types: a mesh mixing element types must ghost an element of this type touching a node the rank owns through an element of another type, otherwise the rows of that node are incomplete.
+        """
+
+        Nproc = len(dict_rank_nodes)
+
+        Ne = connect.shape[0]
+
+        list_rank_groupElem: list["_GroupElem"] = []
         elements = np.arange(Ne, dtype=int)
 
         for rank in range(Nproc):
             # get owned elements and their connectivity
             idx_r = np.array(list(dict_rank_elements[rank]), dtype=int)
             connect_r = connect[idx_r]
-            # get (non-ghost) nodes from owned elements only
-            # Build set union directly instead of loop
-            otherRankNodes = set().union(
-                *(dict_rank_nodes[r] for r in range(Nproc) if r != rank)
-            )
-            # add (non-ghost) nodes
-            nodes = set(connect_r.ravel()) - otherRankNodes
-            dict_rank_nodes[rank].update(nodes)
-            Nn += len(nodes)
-            # find ghost elements
-            # Convert to array once and reuse
+
+            # (non-ghost) nodes of this group: the nodes of its owned elements that the rank owns
+            nodes = set(connect_r.ravel()) & dict_rank_nodes[rank]
             nodes_arr = np.array(list(nodes), dtype=int)
+
+            # find ghost elements: owned by another rank and touching a node owned by this one
+            owned_arr = np.array(list(dict_rank_nodes[rank]), dtype=int)
             ghost_idx = set()
             for other_rank in range(Nproc):
                 if other_rank == rank:
@@ -2373,19 +2378,22 @@ class Mesher:
                 other_idx_arr = np.array(list(other_idx), dtype=int)
                 other_connect = connect[other_idx_arr]
                 # Use isin (not deprecated)
-                mask = np.isin(other_connect, nodes_arr).any(axis=1)
+                mask = np.isin(other_connect, owned_arr).any(axis=1)
                 ghost_idx.update(other_idx_arr[mask])
+
             # build full connectivity: owned elements + ghost elements
             # Use np.unique for combined sorting (faster than sorted(set))
             all_idx = np.unique(
                 np.concatenate([idx_r, np.array(list(ghost_idx), dtype=int)])
             )
             connect_r_full = connect[all_idx]
+
             # create groupElem with owned + ghost elements
             groupElem = GroupElemFactory._Create(gmshId, connect_r_full, coordinates)
             groupElem._Set_partitioned_data(
                 elements[idx_r], nodes_arr, rank, elements[list(ghost_idx)]
             )
+
             # append the created groupElem
             list_rank_groupElem.append(groupElem)
 
@@ -2431,6 +2439,22 @@ class Mesher:
             gmsh.model.mesh.partition(Nproc)
             tic.Tac("Mesh", "gmsh.model.mesh.partition", self.__verbosity)
             dict_rank_nodes: dict[int, set[int]] = {r: set() for r in range(Nproc)}
+            dict_rank_elements = {
+                gmshId: self.__Get_rank_elements(gmshId, dict_connect[gmshId][1], Nproc)
+                for gmshId in elementTypes
+            }
+            # Node ownership is settled over every element type before any ghost search
+            # (type by type, rank by rank: a node goes to the first rank that reaches it).
+            for gmshId in elementTypes:
+                connect = dict_connect[gmshId][0]
+                for rank in range(Nproc):
+                    idx_r = np.array(list(dict_rank_elements[gmshId][rank]), dtype=int)
+                    otherRankNodes = set().union(
+                        *(dict_rank_nodes[r] for r in range(Nproc) if r != rank)
+                    )
+                    dict_rank_nodes[rank].update(
+                        set(connect[idx_r].ravel()) - otherRankNodes
+                    )
 
         list_dict_groupElem: list[dict[ElemType, "_GroupElem"]] = [
             {} for _ in range(Nproc)
@@ -2441,7 +2465,11 @@ class Mesher:
 
             if isPartitioned:
                 groupElems = self.__Get_partitioned_groupElems(
-                    gmshId, connect, elementTags, coordinates, dict_rank_nodes
+                    gmshId,
+                    connect,
+                    coordinates,
+                    dict_rank_nodes,
+                    dict_rank_elements[gmshId],
                 )
             else:
                 # Note that each group of elements contains all coordinates.
